@@ -71,17 +71,42 @@ Theorem C07_gconc_effects : forall sched st,
 Proof. exact gconc_effects. Qed.
 Print Assumptions C07_gconc_effects.
 
+(* A GET commits at its FETCH step (the step that runs its handler) and answers at a later step
+   with the response computed there, so the answers no longer come in commit order.  gcommits_t:
+   (operation, response of its effect) at every commit step, in commit order; ganswers_t:
+   (operation, response) at every ODone, in answer order.  The commit responses are the responses
+   of the effects, in order; every answer is the response of the same operation's commit (unless
+   the operation was fetched before the run), every commit is answered with its response (unless it
+   is a GET still parked at the end), and every operation commits at most once. *)
 Theorem C07_gconc_effect_resps : forall sched st,
-  done_resps (snd (grun st sched)) = effect_resps (g_store st) (geffects st sched).
+  map snd (gcommits_t st sched) = effect_resps (g_store st) (geffects st sched)
+  /\ map snd (ganswers_t st sched) = done_resps (snd (grun st sched))
+  /\ (forall op rsp, In (op, rsp) (ganswers_t st sched) -> In (op, rsp) (gcommits_t st sched) \/ reading st op rsp)
+  /\ (forall op rsp, In (op, rsp) (gcommits_t st sched) ->
+        In (op, rsp) (ganswers_t st sched) \/ reading (fst (grun st sched)) op rsp)
+  /\ NoDup (map fst (gcommits_t st sched)).
 Proof. exact gconc_effect_resps. Qed.
 Print Assumptions C07_gconc_effect_resps.
 
-(* what one step does, summarised by its effect *)
+(* without GETs (and no reader parked at the start) the answers come in commit order: the former
+   statement *)
+Theorem C07_gconc_effect_resps_get_free : forall sched st, all_reqs not_get st -> no_reads st ->
+  done_resps (snd (grun st sched)) = effect_resps (g_store st) (geffects st sched).
+Proof. exact gconc_effect_resps_get_free. Qed.
+Print Assumptions C07_gconc_effect_resps_get_free.
+
+(* what one step does, summarised by its effect: a commit answers at once with the response of
+   its effect, except the fetch of a GET, which parks holding it; a step without effect leaves the
+   store alone and, if it answers, is a parked GET giving the response it holds *)
 Theorem C07_step_effect_spec : forall st i,
   match step_effect st i with
   | Some e => g_store (fst (gstep st i)) = apply_geffect (g_store st) e
-              /\ snd (gstep st i) = ODone (effect_resp (g_store st) e)
-  | None => g_store (fst (gstep st i)) = g_store st /\ forall rsp, snd (gstep st i) <> ODone rsp
+              /\ (snd (gstep st i) = ODone (effect_resp (g_store st) e)
+                  \/ (snd (gstep st i) = OAt /\ exists r, e = EHandle r /\ is_get r = true
+                      /\ cur_req st i = Some (r, GNew)
+                      /\ cur_req (fst (gstep st i)) i = Some (r, GRead (effect_resp (g_store st) e))))
+  | None => g_store (fst (gstep st i)) = g_store st
+            /\ forall rsp, snd (gstep st i) = ODone rsp -> exists r, cur_req st i = Some (r, GRead rsp)
   end.
 Proof. exact step_effect_spec. Qed.
 Print Assumptions C07_step_effect_spec.
@@ -89,20 +114,43 @@ Print Assumptions C07_step_effect_spec.
 (* ---- 3. serialisability ---- *)
 
 (* programs without compose: every schedule equals the sequential run of the frozen requests in
-   commit order — same final store, same responses in the same order *)
+   commit order (a GET at its fetch) — same final store; the response of every operation is the
+   response the sequential run gives at its position in the log, and the answers given are exactly
+   these (each GET answers what the sequential run answers at the GET's position) *)
 Theorem C07_gconc_serializable_object : forall s0 progs sched, Forall (Forall not_compose) progs ->
   let st := init_g s0 progs in
   g_store (fst (grun st sched)) = fst (run s0 (glog st sched))
-  /\ done_resps (snd (grun st sched)) = snd (run s0 (glog st sched)).
+  /\ map snd (gcommits_t st sched) = snd (run s0 (glog st sched))
+  /\ map fst (gcommits_t st sched) = map fst (glog_t st sched)
+  /\ (forall op rsp, In (op, rsp) (ganswers_t st sched) -> In (op, rsp) (gcommits_t st sched))
+  /\ (forall op rsp, In (op, rsp) (gcommits_t st sched) ->
+        In (op, rsp) (ganswers_t st sched) \/ reading (fst (grun st sched)) op rsp).
 Proof. exact gconc_serializable_object. Qed.
 Print Assumptions C07_gconc_serializable_object.
 
-(* real-time order: A answered before B's first step => A precedes B in the linearisation *)
+(* ... and without GETs the responses come in the same order too: the former statement *)
+Theorem C07_gconc_serializable_object_get_free : forall s0 progs sched,
+  Forall (Forall not_compose) progs -> Forall (Forall not_get) progs ->
+  let st := init_g s0 progs in
+  g_store (fst (grun st sched)) = fst (run s0 (glog st sched))
+  /\ done_resps (snd (grun st sched)) = snd (run s0 (glog st sched)).
+Proof. exact gconc_serializable_object_get_free. Qed.
+Print Assumptions C07_gconc_serializable_object_get_free.
+
+(* real-time order: A COMMITTED (a fortiori answered, C07_gconc_real_time_answered) before B's
+   first step => A precedes B in the linearisation *)
 Theorem C07_gconc_real_time : forall st s1 s2 A rA B rB,
   In (A, rA) (glog_t st s1) -> ~ In B (gops st s1) -> In (B, rB) (glog_t st (s1 ++ s2)) ->
   exists l1 l2 l3, glog_t st (s1 ++ s2) = l1 ++ (A, rA) :: l2 ++ (B, rB) :: l3.
 Proof. exact gconc_real_time. Qed.
 Print Assumptions C07_gconc_real_time.
+
+Theorem C07_gconc_real_time_answered : forall st s1 s2 A rspA B rspB,
+  ~ reading st A rspA -> In (A, rspA) (ganswers_t st s1) -> ~ In B (gops st s1) ->
+  In (B, rspB) (gcommits_t st (s1 ++ s2)) ->
+  exists l1 l2 l3, gcommits_t st (s1 ++ s2) = l1 ++ (A, rspA) :: l2 ++ (B, rspB) :: l3.
+Proof. exact gconc_real_time_answered. Qed.
+Print Assumptions C07_gconc_real_time_answered.
 
 Theorem C07_glog_t_reqs : forall sched st, map snd (glog_t st sched) = glog st sched.
 Proof. exact glog_t_reqs. Qed.
@@ -164,14 +212,28 @@ Theorem C07_exactly_one_conditional_writer_wins : forall s0 b n g (payloads : li
 Proof. exact exactly_one_conditional_writer_wins. Qed.
 Print Assumptions C07_exactly_one_conditional_writer_wins.
 
-Theorem C07_exactly_one_conditional_writer_wins_from : forall st sched b n g,
+(* FULL statement (without no_reads st) is false now that a thread can be parked in GRead: such a
+   thread answers with the response it holds whatever its request is
+   (C07_exactly_one_conditional_writer_wins_from_refuted_parked_reader).  Exact guard: no thread of
+   st is parked in GRead (true of every init_g, and kept by programs without GETs). *)
+Theorem C07_exactly_one_conditional_writer_wins_from_partial : forall st sched b n g,
   n <> [] -> 0 < g <= int64_max ->
-  all_reqs (gen_upload b n g) st -> has_gen b n g (g_store st) ->
+  all_reqs (gen_upload b n g) st -> no_reads st -> has_gen b n g (g_store st) ->
   all_done (fst (grun st sched)) ->
   map r_status (done_resps (snd (grun st sched)))
   = match pending st with O => [] | S k => 200 :: repeat 412 k end.
-Proof. exact exactly_one_conditional_writer_wins_from. Qed.
-Print Assumptions C07_exactly_one_conditional_writer_wins_from.
+Proof. exact exactly_one_conditional_writer_wins_from_partial. Qed.
+Print Assumptions C07_exactly_one_conditional_writer_wins_from_partial.
+
+Theorem C07_exactly_one_conditional_writer_wins_from_refuted_parked_reader :
+  let st := mkGState c07_s1 [] [mkGThread [c07_cup [2]%N] (GRead (err 404))] in
+  c07_n <> [] /\ 0 < c07_g <= int64_max
+  /\ all_reqs (gen_upload c07_b c07_n c07_g) st /\ has_gen c07_b c07_n c07_g (g_store st)
+  /\ all_done (fst (grun st [0%nat])) /\ pending st = 1%nat
+  /\ map r_status (done_resps (snd (grun st [0%nat]))) = [404]
+  /\ ~ no_reads st.
+Proof. exact exactly_one_conditional_writer_wins_from_refuted_parked_reader. Qed.
+Print Assumptions C07_exactly_one_conditional_writer_wins_from_refuted_parked_reader.
 
 (* the same with SYMBOLIC preconditions "ifGenerationMatch = the generation of (b, n) as I see it"
    (PGen b n 0), frozen at each thread's first step, all first steps before any answer *)
@@ -377,17 +439,46 @@ Print Assumptions C07_no_lost_update.
 
 (* ---- 7. reads ---- *)
 
-Theorem C07_mem_read_snapshot : forall st i b n p r,
-  cur_req st i = Some (r, p) -> r = RGetMeta b n \/ r = RGetMedia b n ->
-  g_store (fst (gstep st i)) = g_store st
-  /\ snd (gstep st i) = ODone (match find_obj (g_store st) b n with
-                               | Some o => if match r with RGetMeta _ _ => true | _ => false end
-                                           then mkResp 200 (BMeta (view b n o))
-                                           else mkResp 200 (BMedia (o_data o) (o_ctype o) (o_gen o) (o_metagen o))
-                               | None => err 404
-                               end).
-Proof. exact mem_read_snapshot. Qed.
-Print Assumptions C07_mem_read_snapshot.
+(* a GET is two steps: the FETCH (one store read; the thread parks holding the response built from
+   what it read) and the ANSWER.  Whatever the other threads do between the two (writers may
+   overwrite or delete the object), the answer is the response computed in the store of the fetch:
+   generation, metageneration, metadata and content belong together at ONE instant *)
+Theorem C07_get_answers_its_fetch_state : forall st i r mid, cur_req st i = Some (r, GNew) -> is_get r = true ->
+  Forall (fun j => j <> i) mid ->
+  let rsp := snd (handle (g_store st) r) in
+  let st1 := fst (gstep st i) in
+  let st2 := fst (grun st1 mid) in
+  snd (gstep st i) = OAt /\ g_store st1 = g_store st /\ g_holders st1 = g_holders st
+  /\ step_effect st i = Some (EHandle r)
+  /\ cur_req st2 i = Some (r, GRead rsp)
+  /\ snd (gstep st2 i) = ODone rsp
+  /\ g_store (fst (gstep st2 i)) = g_store st2.
+Proof. exact get_answers_its_fetch_state. Qed.
+Print Assumptions C07_get_answers_its_fetch_state.
+
+(* for ALL schedules: every answer given to that GET is the response computed at its fetch *)
+Theorem C07_get_answer_unique : forall st i r sched rsp', cur_req st i = Some (r, GNew) -> is_get r = true ->
+  In (op_of st i, rsp') (ganswers_t st (i :: sched)) -> rsp' = snd (handle (g_store st) r).
+Proof. exact get_answer_unique. Qed.
+Print Assumptions C07_get_answer_unique.
+
+(* that response, for an object GET: every field from the one object stored under (b, n) *)
+Theorem C07_get_response_shape : forall s b n r, r = RGetMeta b n \/ r = RGetMedia b n ->
+  snd (handle s r) = match find_obj s b n with
+                     | Some o => if match r with RGetMeta _ _ => true | _ => false end
+                                 then mkResp 200 (BMeta (view b n o))
+                                 else mkResp 200 (BMedia (o_data o) (o_ctype o) (o_gen o) (o_metagen o))
+                     | None => err 404
+                     end.
+Proof. exact get_response_shape. Qed.
+Print Assumptions C07_get_response_shape.
+
+(* neither step of a GET changes the store or the holders *)
+Theorem C07_get_changes_nothing : forall st i r, glock_inv st ->
+  (cur_req st i = Some (r, GNew) /\ is_get r = true) \/ (exists rsp, cur_req st i = Some (r, GRead rsp)) ->
+  g_store (fst (gstep st i)) = g_store st /\ g_holders (fst (gstep st i)) = g_holders st.
+Proof. exact get_changes_nothing. Qed.
+Print Assumptions C07_get_changes_nothing.
 (* file_read_mixture_refuted: the file store's 3-step Add is not in this model; a read between its
    steps mixing new content with old metadata is exhibited dynamically as finding GCS-10. *)
 
@@ -406,6 +497,23 @@ Example C07_nameless_multipart_one_step :
   /\ map otag (snd (grun (init_g c07_s1 [[c07_up [2]%N]; [RUploadMultipart c07_b (mkUpMeta [109]%N [116]%N 0 []) [3]%N c07_cp0]])
                       [0; 1]%nat)) = [1; 1].
 Proof. split; vm_compute; reflexivity. Qed.
+
+(* two readers (media, metadata) fetch object (b, n) of c07_s1; a writer then overwrites it
+   completely (yield, commit: content [2], a new generation); the readers answer afterwards — with
+   the OLD object, every field of it, while the store holds the new one.  Commit order: the two
+   fetches, then the writer; answer order: the writer first *)
+Example C07_get_answers_old_object :
+  let st := init_g c07_s1 [[RGetMedia c07_b c07_n]; [c07_up [2]%N]; [RGetMeta c07_b c07_n]] in
+  let out := grun st [0; 2; 1; 1; 0; 2]%nat in
+  map otag (snd out) = [1; 1; 1; 200; 200; 200]
+  /\ nth 4 (snd out) OIdle = ODone (mkResp 200 (BMedia [1]%N [116]%N c07_g 1))
+  /\ nth 5 (snd out) OIdle = ODone (mkResp 200 (BMeta (mkView c07_b c07_n 1 c07_g 1 [116]%N 1 [])))
+  /\ snd (handle c07_s1 (RGetMedia c07_b c07_n)) = mkResp 200 (BMedia [1]%N [116]%N c07_g 1)
+  /\ snd (handle c07_s1 (RGetMeta c07_b c07_n)) = mkResp 200 (BMeta (mkView c07_b c07_n 1 c07_g 1 [116]%N 1 []))
+  /\ find_obj (g_store (fst out)) c07_b c07_n = Some (mkObj [2]%N [116]%N (c07_g + 1) 1 true [])
+  /\ map fst (gcommits_t st [0; 2; 1; 1; 0; 2]%nat) = [(0, 1); (2, 1); (1, 1)]%nat
+  /\ map fst (ganswers_t st [0; 2; 1; 1; 0; 2]%nat) = [(1, 1); (0, 1); (2, 1)]%nat.
+Proof. exact get_answers_old_object. Qed.
 
 (* two conditional uploaders: the hypotheses of C07_exactly_one_conditional_writer_wins hold, and
    exactly one answers 200 in either order *)
